@@ -96,11 +96,13 @@ def interp_matrix(src, dst):
 
 
 def time_transfer(fine_nodes, coarse_nodes):
-    """(Rcoll, Pcoll): fine-node values -> coarse-node values and back. Equal node *counts* mean no coarsening in time
-    (identity both ways); that is the documented meaning of 'same number of nodes' and is what is compared against."""
-    if len(fine_nodes) == len(coarse_nodes):
-        return np.eye(len(fine_nodes)), np.eye(len(fine_nodes))
-    return interp_matrix(fine_nodes, coarse_nodes), interp_matrix(coarse_nodes, fine_nodes)
+    """(Rcoll, Pcoll): fine-node values -> coarse-node values and back by Lagrange interpolation; the identity when the
+    two node sets coincide. (Equal node *counts* with different node sets are not enumerated by C10: what the
+    implementation does there is C11's subject.)"""
+    f, c = np.asarray(fine_nodes, dtype=float), np.asarray(coarse_nodes, dtype=float)
+    if len(f) == len(c) and np.allclose(f, c, rtol=0.0, atol=1e-14):
+        return np.eye(len(f)), np.eye(len(f))
+    return interp_matrix(f, c), interp_matrix(c, f)
 
 
 # ---------------------------------------------------------------------------------------------------------------------
